@@ -89,14 +89,14 @@ struct Agg {
     draws: u64,
     nontrivial_runs: u64,
     per_type: BTreeMap<String, u64>,
-    per_mode: [u64; 4],
+    per_mode: [u64; 5],
     infallible_runs: u64,
     failing: Vec<(u64, String, String)>, // run index, class, type
 }
 
 impl Agg {
     fn new() -> Agg {
-        Agg { counters: Counters::new(), states: BTreeSet::new(), distinct: HashSet::new(), fp_xor: 0, fp_sum: 0, runs: 0, calls: 0, draws: 0, nontrivial_runs: 0, per_type: BTreeMap::new(), per_mode: [0; 4], infallible_runs: 0, failing: Vec::new() }
+        Agg { counters: Counters::new(), states: BTreeSet::new(), distinct: HashSet::new(), fp_xor: 0, fp_sum: 0, runs: 0, calls: 0, draws: 0, nontrivial_runs: 0, per_type: BTreeMap::new(), per_mode: [0; 5], infallible_runs: 0, failing: Vec::new() }
     }
     fn merge(&mut self, o: Agg) {
         for (k, v) in o.counters {
@@ -113,7 +113,7 @@ impl Agg {
         for (k, v) in o.per_type {
             *self.per_type.entry(k).or_insert(0) += v;
         }
-        for i in 0..4 {
+        for i in 0..5 {
             self.per_mode[i] += o.per_mode[i];
         }
         self.infallible_runs += o.infallible_runs;
@@ -416,7 +416,7 @@ fn cmd_run(args: &[String]) -> i32 {
         for k in [
             "probe_rejection_then_accept", "probe_stall_recovered", "probe_full_range", "probe_signed_range_spans_zero", "probe_result_eq_low", "probe_result_eq_high",
             "probe_offset_carries_past_first_digit", "probe_err_propagated", "probe_err_surfaced_as_rand_panic", "probe_injected_panic_propagated", "probe_sampler_reused_after_panic",
-            "probe_zero_length_fill", "probe_gen_refines_history", "probe_fill_refines_history", "probe_slice_equals_elementwise", "probe_fibre_at_bound", "r3_clusters_checked", "probe_accepted_word_is_function", "probe_complete_fibres_counted", "fibre_walk_configs_compared",
+            "probe_zero_length_fill", "probe_gen_refines_history", "probe_fill_refines_history", "probe_slice_equals_elementwise", "probe_fibre_at_bound", "r3_clusters_checked", "probe_accepted_word_is_function", "probe_complete_fibres_counted", "fibre_walk_configs_compared", "probe_spans_measured", "span_probe_configs_compared",
             "fault_rng_err", "fault_rng_partial_err", "fault_rng_panic", "fault_stall_repeat",
         ] {
             if agg.counters.get(k).copied().unwrap_or(0) == 0 {
@@ -477,7 +477,7 @@ fn cmd_run(args: &[String]) -> i32 {
         .set("state_hashes", J::Arr(agg.states.iter().map(|x| J::Int(*x as i128)).collect()))
         .set("fingerprint_xor", J::s(&format!("{:016x}", agg.fp_xor)))
         .set("fingerprint_sum", J::s(&format!("{:016x}", agg.fp_sum)))
-        .set("runs_by_mode", J::obj().set("mixed_with_faults", J::Int(agg.per_mode[0] as i128)).set("cluster", J::Int(agg.per_mode[1] as i128)).set("fault_free_twin", J::Int(agg.per_mode[2] as i128)).set("fibre_walk", J::Int(agg.per_mode[3] as i128)))
+        .set("runs_by_mode", J::obj().set("mixed_with_faults", J::Int(agg.per_mode[0] as i128)).set("cluster", J::Int(agg.per_mode[1] as i128)).set("fault_free_twin", J::Int(agg.per_mode[2] as i128)).set("fibre_walk", J::Int(agg.per_mode[3] as i128)).set("span_probe", J::Int(agg.per_mode[4] as i128)))
         .set("runs_rng_infallible_personality", J::Int(agg.infallible_runs as i128))
         .set("failing_runs", J::Int(agg.failing.len() as i128))
         .set("counters", counters)
